@@ -419,7 +419,7 @@ func c19AskHeld(a c19ask, heldStyle string, ids map[string]int) (qs []C19Q) {
 }
 
 func c19Worker() {
-	paletteInit()
+	c19Init()
 	var spec C19Spec
 	if err := json.NewDecoder(os.Stdin).Decode(&spec); err != nil {
 		panic(err)
@@ -619,7 +619,7 @@ type c19Desc struct {
 }
 
 func c19Run(spec json.RawMessage) CaseOut {
-	paletteInit()
+	c19Init()
 	var sp C19Spec
 	if err := json.Unmarshal(spec, &sp); err != nil {
 		panic(err)
@@ -773,7 +773,12 @@ func c19Run(spec json.RawMessage) CaseOut {
 	for i, st := range out.Steps {
 		reg := "None"
 		if i-off >= 0 {
-			reg = cqSome(cqPair(nt.ref(unq(sp.Regs[i-off].N)), cqDec(sp.Regs[i-off].D)))
+			dc := cqDec(sp.Regs[i-off].D)
+			if sp.Burst == 0 {
+				// the value as written (its string fields); Coq decides from them whether it is the zero value
+				dc = c19DecCoq(nt, sp.Regs[i-off].D)
+			}
+			reg = cqSome(cqPair(nt.ref(unq(sp.Regs[i-off].N)), dc))
 		}
 		var l []string
 		for _, n := range st.Listing {
@@ -820,8 +825,11 @@ func c19Run(spec json.RawMessage) CaseOut {
 	}
 	for _, r := range sp.Regs {
 		tags = append(tags, "name:"+c19NameClass(unq(r.N)))
-		if r.D >= 10 {
+		if r.D >= 10 && !c19IsMulti(r.D) {
 			tags = append(tags, "decoration-written-field-by-field")
+		}
+		if c19IsMulti(r.D) {
+			tags = append(tags, "decoration-with-several-runes-per-cell")
 		}
 	}
 	for c := range classes {
@@ -853,6 +861,11 @@ func c19NameClass(n string) string {
 	switch {
 	case n == "":
 		return "empty"
+	case c19IsCaseRelative(n):
+		if low2 := strings.ToLower(strings.Split(n, ".")[0]); low2 == "csv" || low2 == "html" || low2 == "json" || low2 == "markdown" || low2 == "texttable" {
+			return "unicode-case-relative-of-keyword(ToLower maps it there)"
+		}
+		return "unicode-case-relative-of-keyword(not by ToLower: an ordinary name)"
 	case low == "csv" || low == "html" || low == "json" || low == "markdown" || low == "texttable":
 		if n == low {
 			return "sub-package-name"
@@ -891,7 +904,7 @@ var c19Pool = []string{
 var c19AppDecs = []int{7, 10, 8, 11, 9, 12, 13}
 
 func c19Gen(r *RNG, tier string) []json.RawMessage {
-	paletteInit()
+	c19Init()
 	var out []json.RawMessage
 	add := func(names ...string) {
 		var sp C19Spec
@@ -1012,6 +1025,10 @@ func c19Gen(r *RNG, tier string) []json.RawMessage {
 		sp.Cold = i%2 == 0
 		out = append(out, mustJSON(sp))
 	}
+	// round 6: decorations with several runes per cell; Unicode case-mapping relatives of the keywords
+	for _, sp := range c19GenR6(r, tier) {
+		out = append(out, mustJSON(sp))
+	}
 	prefetchChildren("C19worker", out, 12)
 	return out
 }
@@ -1059,6 +1076,11 @@ func init() {
 			"At EVERY step (not only the last): plain 'texttable' in two spellings and every name the world registers, bare and under 'texttable.' - the ones not yet registered included. " +
 			"The listed names, those every-step styles and a rotating fifth (large query set: tenth) of the other styles are also put to auto.Render(t, style) and auto.RenderTo(t, w, style) (no renderer value, only the rendering). " +
 			"Renderers the application keeps: auto.New of the every-step styles at each step but the last, rendered again at the following step and at the last one; they must answer from the registry of the step that made them. " +
+			"Round 6: the palette also holds decorations whose cells are one cell but several runes (base + nonspacing mark, + enclosing mark, + variation selector, + two and three marks; marks taken from the unicode tables and kept if go-runewidth measures base+mark as one cell): " +
+			"the tail in one Populate() template alone, in all three, on every cell of a stock decoration, and on every field / the corners / the horizontals / the verticals / the junctions / a single field of a decoration written field by field; " +
+			"all of them registered in one world under plain names, in one under dotted names, over the stock names, some alone; the pool worlds and the random worlds draw them too. " +
+			"Names that a Unicode case mapping other than ToLower relates to a keyword (every code point related to a letter of a keyword by ToLower, ToUpper, ToTitle, simple case folding or the Turkish special casing, found by scanning all code points; one letter of the keyword replaced, the rest as is or upper-cased): " +
+			"registered all in one world, all with a trailing section, some alone, together with the keyword itself in both orders, and asked unregistered bare, under 'texttable.' and with trailing sections. " +
 			"A case is non-trivial when it registers something; distinct = distinct worlds",
 		Exhaustive: "",
 		Gen:        c19Gen,
